@@ -17,8 +17,12 @@ from .facts import strip, walk, kids
 
 
 class Canon:
-    def __init__(self, fn):
+    def __init__(self, fn, uniform=False):
+        """uniform=True (reference summaries): the induction variable of a `for` statement is an ordinary reassigned
+        local (so `for (init; c; inc) body` and `init; while (c) { body; inc; }` have the same canonical events), and
+        reassigned locals are named by the order of their declarations (?v1, ?v2, ...), not by their spelling."""
         self.fn = fn
+        self.uniform = uniform
         self.params = {p["id"]: i for i, p in enumerate(fn.o["params"])}
         self.defs = {}
         self.loopvars = {}
@@ -38,17 +42,27 @@ class Canon:
             k = n.get("k")
             if k == "ForStmt":
                 init = n.get("init")
-                if init and init.get("k") == "DeclStmt":
+                if init and init.get("k") == "DeclStmt" and not uniform:
                     for d in init.get("decls", ()):
                         if d.get("k") == "Var":
                             self.loopvars[d["id"]] = ("for", d.get("init"), n.get("cond"), n)
-                if n.get("inc"):
+                if n.get("inc") and not uniform:
                     for m in walk(n["inc"]):
                         inc_nodes.add(id(m))
             elif k == "CXXForRangeStmt":
                 lv = n.get("loopvar")
                 if lv:
                     self.loopvars[lv["id"]] = ("each", n.get("range"), None, n)
+        if uniform:
+            # a local handed to a callee by mutable reference / pointer is written by that call
+            for n in walk(fn.body):
+                if n.get("k") in ("CallExpr", "CXXMemberCallExpr") and n.get("callee"):
+                    ptypes = A.split_params(fn.facts.T(n["callee"].get("t")))
+                    for a, pt in zip(A.call_args(n), ptypes):
+                        if A.mutable_ref(pt):
+                            vid = A.declref_id(strip(a, casts=True))
+                            if vid is not None:
+                                written.add((vid, id(n)))
         wcount = {}
         for vid, nid in written:
             if nid in inc_nodes and vid in self.loopvars:
@@ -73,6 +87,18 @@ class Canon:
                     del self.defs[vid]
         self.multi = {vid for vid, c in wcount.items() if c}
         self._stack = set()
+        self.ordinal = {}
+        if uniform:
+            for n in walk(fn.body):
+                if n.get("k") == "Var" and n["id"] not in self.defs and n["id"] not in self.loopvars and \
+                        n["id"] not in self.ordinal:
+                    self.ordinal[n["id"]] = len(self.ordinal) + 1
+
+    def lname(self, vid, name):
+        """Canonical name of a local that is not replaced by its initialiser."""
+        if self.uniform and vid in self.ordinal:
+            return "?v%d" % self.ordinal[vid]
+        return "?" + name
 
     # ------------------------------------------------------------------
     def c(self, n):
@@ -172,7 +198,7 @@ class Canon:
                 return self.c(self.defs[vid])
             finally:
                 self._stack.discard(vid)
-        return "?" + d["n"]
+        return self.lname(vid, d["n"])
 
     def _bound(self, cond, vid):
         s = strip(cond, casts=True)
